@@ -773,9 +773,18 @@ impl Star {
                 }
                 _ => (vec![r.range(5, 255) as u8, 0, 0], "invalid-type"),
             };
+            // a well-formed acknowledgement announcing an enormous range: cheap to send, must be cheap to process
+            let (bytes, label) = if r.chance(1, 8) {
+                let seq = r.below(1 << 20);
+                let end = *r.pick(&[(1u64 << 62) - 1, 1 << 40, 1 << 32]);
+                (enc(&Packet::Ack { sequence: seq, ack_ranges: vec![0..end] }), "wide-ack")
+            } else {
+                (bytes, label)
+            };
             let was_connected = self.sim.server.is_connected(id);
             let server = &mut self.sim.server;
-            match watchdog::catch(|| {
+            // guarded: a call that does not come back stalls every other client of this server
+            match watchdog::guarded("RenetServer::process_packet_from(hostile)", &bytes, || {
                 let _ = server.process_packet_from(&bytes, id);
             }) {
                 Err(c) => {
